@@ -84,11 +84,16 @@ def main():
     sel = sys.argv[1:]
     ms = load(props=sel, ids=sel) if sel else load()
     bad = 0
+    rec = []
     with cf.ThreadPoolExecutor(max_workers=int(os.environ.get('SELFTEST_JOBS', '4'))) as ex:
-        for mid, status, detail in ex.map(run_one, ms):
+        for m, (mid, status, detail) in zip(ms, ex.map(run_one, ms)):
             print('%-28s %-18s %s' % (mid, status, detail))
+            rec.append(dict(id=mid, props=m['props'], expect=m['expect'], status=status, detail=detail[:240],
+                            where=m.get('file') or 'seeded/%s/patch.diff' % mid))
             if status not in ('killed', 'skipped'):
                 bad += 1
+    if not sel:
+        json.dump(rec, open(os.path.join(HERE, 'selftest', 'last_run.json'), 'w'), indent=1)
     print('mutants: %d, not killed by the expected rule: %d' % (len(ms), bad))
     return 1 if bad else 0
 
